@@ -22,6 +22,9 @@ def run(ctx):
     r1 = c05_sensors.run(ctx)
     r2 = c05_params.run(ctx)
     res = _merge(r1, r2)
+    import random
+    import pycode  # translator validation: generated Lean definitions vs the real functions (harness/pycode.py)
+    pycode.check(res, random.Random(ctx["seed"] * 7919 + 77), ctx["tier"], ["uid", "params", "schedule"])
     res.failures.sort(key=lambda f: f["kind"] != "spec")
     return res
 
